@@ -163,6 +163,8 @@ fn refuse_reason(msg: &str) -> &'static str {
         "rs255"
     } else if msg.contains("source symbols per block of the FEC scheme") {
         "kmax"
+    } else if msg.contains("cannot be encoded by the FEC Raptor") {
+        "raptorlt4"
     } else if msg.contains("scheme parameters are not defined") {
         "noscheme"
     } else if msg.contains("requires the transmission of") {
@@ -1707,6 +1709,18 @@ fn admit_cases(ctx: &mut Ctx, eng: &mut dyn Engine, rng: &mut Rng, nrandom: usiz
                             issue(ctx, eng, admit_op(0, false, &oti, "-", *len, "own", CT, "-", "-", "-"));
                         }
                     }
+                }
+            }
+        }
+    }
+    // small partitions: blocks of 0..5 symbols, one or two block sizes (Raptor refuses sizes 2 and 3 that are in use)
+    for fec in [0u32, 1, 5, 6, 129] {
+        for b in 1u64..=6 {
+            for t in 0u64..=14 {
+                for len in [4 * t, (4 * t).saturating_sub(1)] {
+                    let sc = scheme_tokens(fec, false)[0];
+                    let oti = format!("{}:4:{}:2:{}", fec, b, sc);
+                    issue(ctx, eng, admit_op(0, false, NOCODE, &oti, len, "none", CT, "-", "-", "-"));
                 }
             }
         }
